@@ -34,7 +34,11 @@ pub struct PersistWal {
 impl PersistWal {
     /// Create a new WAL
     pub fn new(wal_dir: PathBuf) -> StorageResult<Self> {
+        #[cfg(inputlayer_verif)]
+        crate::verif_hooks::fs_point("wal.new.mkdir:pre");
         fs::create_dir_all(&wal_dir)?;
+        #[cfg(inputlayer_verif)]
+        crate::verif_hooks::fs_point("wal.new.mkdir:post");
 
         let current_file = wal_dir.join("current.wal");
 
@@ -49,6 +53,8 @@ impl PersistWal {
     /// Ensure writer is open
     fn ensure_writer(&mut self) -> StorageResult<&mut BufWriter<File>> {
         if self.writer.is_none() {
+            #[cfg(inputlayer_verif)]
+            crate::verif_hooks::fs_point("wal.open:pre");
             let file = OpenOptions::new()
                 .create(true)
                 .append(true)
@@ -64,6 +70,8 @@ impl PersistWal {
                     );
                     e
                 })?;
+            #[cfg(inputlayer_verif)]
+            crate::verif_hooks::fs_point("wal.open:post");
             self.writer = Some(BufWriter::new(file));
         }
         Ok(self
@@ -102,11 +110,19 @@ impl PersistWal {
         let checksum = Self::crc32_hex(json.as_bytes());
         writeln!(writer, "{checksum}:{json}")?;
         if flush {
+            #[cfg(inputlayer_verif)]
+            crate::verif_hooks::fs_point("wal.append1.write:pre");
             writer.flush()?;
+            #[cfg(inputlayer_verif)]
+            crate::verif_hooks::fs_point("wal.append1.write:post");
             // sync_all() forces data to disk (not just OS page cache).
             // Without this, a power failure after flush() could still lose data
             // because the OS may not have written the page cache to the physical disk yet.
+            #[cfg(inputlayer_verif)]
+            crate::verif_hooks::fs_point("wal.append1.fsync:pre");
             writer.get_ref().sync_all()?;
+            #[cfg(inputlayer_verif)]
+            crate::verif_hooks::fs_point("wal.append1.fsync:post");
         }
         self.entries_written += 1;
 
@@ -136,8 +152,16 @@ impl PersistWal {
         if flush {
             // Flush once at the end for the whole batch and sync to disk
             if let Some(ref mut writer) = self.writer {
+                #[cfg(inputlayer_verif)]
+                crate::verif_hooks::fs_point("wal.append.write:pre");
                 writer.flush()?;
+                #[cfg(inputlayer_verif)]
+                crate::verif_hooks::fs_point("wal.append.write:post");
+                #[cfg(inputlayer_verif)]
+                crate::verif_hooks::fs_point("wal.append.fsync:pre");
                 writer.get_ref().sync_all()?;
+                #[cfg(inputlayer_verif)]
+                crate::verif_hooks::fs_point("wal.append.fsync:post");
             }
         }
         Ok(())
@@ -244,7 +268,11 @@ impl PersistWal {
         // Simply remove the old WAL file. The caller has already flushed
         // all data to batch files, so the WAL entries are redundant.
         if self.current_file.exists() {
+            #[cfg(inputlayer_verif)]
+            crate::verif_hooks::fs_point("wal.clear.unlink:pre");
             fs::remove_file(&self.current_file)?;
+            #[cfg(inputlayer_verif)]
+            crate::verif_hooks::fs_point("wal.clear.unlink:post");
         }
 
         self.entries_written = 0;
@@ -254,8 +282,16 @@ impl PersistWal {
     /// Sync WAL to disk (flushes buffer and calls fsync)
     pub fn sync(&mut self) -> StorageResult<()> {
         if let Some(ref mut writer) = self.writer {
+            #[cfg(inputlayer_verif)]
+            crate::verif_hooks::fs_point("wal.sync.write:pre");
             writer.flush()?;
+            #[cfg(inputlayer_verif)]
+            crate::verif_hooks::fs_point("wal.sync.write:post");
+            #[cfg(inputlayer_verif)]
+            crate::verif_hooks::fs_point("wal.sync.fsync:pre");
             writer.get_ref().sync_all()?;
+            #[cfg(inputlayer_verif)]
+            crate::verif_hooks::fs_point("wal.sync.fsync:post");
         }
         Ok(())
     }
@@ -283,7 +319,11 @@ impl PersistWal {
         if surviving.is_empty() {
             // No surviving entries: just remove the WAL file
             if self.current_file.exists() {
+                #[cfg(inputlayer_verif)]
+                crate::verif_hooks::fs_point("wal.rewrite.unlink:pre");
                 fs::remove_file(&self.current_file)?;
+                #[cfg(inputlayer_verif)]
+                crate::verif_hooks::fs_point("wal.rewrite.unlink:post");
             }
             self.entries_written = 0;
             return Ok(());
@@ -292,6 +332,8 @@ impl PersistWal {
         // Write surviving entries to a temp file
         let new_file = self.wal_dir.join("current.wal.new");
         {
+            #[cfg(inputlayer_verif)]
+            crate::verif_hooks::fs_point("wal.rewrite.tmpwrite:pre");
             let file = OpenOptions::new()
                 .create(true)
                 .write(true)
@@ -305,12 +347,22 @@ impl PersistWal {
                 writeln!(writer, "{checksum}:{json}")?;
             }
             writer.flush()?;
+            #[cfg(inputlayer_verif)]
+            crate::verif_hooks::fs_point("wal.rewrite.tmpwrite:post");
+            #[cfg(inputlayer_verif)]
+            crate::verif_hooks::fs_point("wal.rewrite.fsync:pre");
             writer.get_ref().sync_all()?;
+            #[cfg(inputlayer_verif)]
+            crate::verif_hooks::fs_point("wal.rewrite.fsync:post");
         }
 
         // Atomic rename: replaces old WAL with the new one.
         // On POSIX, rename is atomic - either the old or new file is visible.
+        #[cfg(inputlayer_verif)]
+        crate::verif_hooks::fs_point("wal.rewrite.rename:pre");
         fs::rename(&new_file, &self.current_file)?;
+        #[cfg(inputlayer_verif)]
+        crate::verif_hooks::fs_point("wal.rewrite.rename:post");
 
         self.entries_written = surviving.len();
         Ok(())
@@ -331,11 +383,19 @@ impl PersistWal {
                 .and_then(|s| s.to_str())
                 .is_some_and(|ext| ext == "archived")
             {
+                #[cfg(inputlayer_verif)]
+                crate::verif_hooks::fs_point("wal.archives.unlink_archived:pre");
                 let _ = fs::remove_file(&path);
+                #[cfg(inputlayer_verif)]
+                crate::verif_hooks::fs_point("wal.archives.unlink_archived:post");
             }
             // Also clean up incomplete .new files from interrupted rewrites
             if path.file_name().and_then(|n| n.to_str()) == Some("current.wal.new") {
+                #[cfg(inputlayer_verif)]
+                crate::verif_hooks::fs_point("wal.archives.unlink_new:pre");
                 let _ = fs::remove_file(&path);
+                #[cfg(inputlayer_verif)]
+                crate::verif_hooks::fs_point("wal.archives.unlink_new:post");
             }
         }
         Ok(())
